@@ -26,6 +26,12 @@ pub trait World {
     fn apply(&mut self, op: &Self::Op) -> String;
     /// Evaluate the invariants in the current state. `(key, what)` per violation.
     fn check(&mut self, last: Option<(&Self::Op, &str)>) -> Vec<(String, String)>;
+    /// Invariants whose verdict is a function of the canonical state alone (no dependence on
+    /// the last operation or on anything `canon` leaves out): evaluated only the first time a
+    /// canonical state is reached, so expensive oracles are not repeated on revisits.
+    fn check_state(&mut self) -> Vec<(String, String)> {
+        Vec::new()
+    }
     /// Canonical hash of the current state.
     fn canon(&mut self) -> u64;
 }
@@ -119,7 +125,8 @@ pub fn explore<W: World>(w: &mut W, opts: &Opts, scratch: &std::path::Path) -> R
     let _ = std::fs::remove_file(&g.log_path);
 
     // root
-    let root_viol = w.check(None);
+    let mut root_viol = w.check(None);
+    root_viol.extend(w.check_state());
     for (k, what) in root_viol {
         g.counters.add(C_VIOLS, 1);
         g.log(&json!({"t":"viol","key":k,"what":what,"trace":[]}));
@@ -280,6 +287,14 @@ fn child<W: World>(w: &mut W, trace: &mut Vec<W::Op>, op: W::Op, remaining: u8, 
                 _ => Visit::Deeper,
             }
         };
+        if matches!(v, Visit::New) {
+            for (k, what) in w.check_state() {
+                g.counters.add(C_VIOLS, 1);
+                if g.viol_keys.insert(crate::hash_str(&k)) {
+                    g.log(&json!({"t":"viol","key":k,"what":what,"trace":trace}));
+                }
+            }
+        }
         match v {
             Visit::New => {
                 let n = g.counters.add(C_STATES, 1);
@@ -316,10 +331,12 @@ fn child<W: World>(w: &mut W, trace: &mut Vec<W::Op>, op: W::Op, remaining: u8, 
 pub fn replay<W: World>(w: &mut W, trace: &Value) -> Result<Vec<(String, String)>, String> {
     let ops: Vec<W::Op> = serde_json::from_value(trace.clone()).map_err(|e| format!("bad trace: {e}"))?;
     let mut out = w.check(None);
+    out.extend(w.check_state());
     for op in ops {
         let label = w.apply(&op);
         eprintln!("replay: {op:?} -> {label}");
         out.extend(w.check(Some((&op, &label))));
+        out.extend(w.check_state());
     }
     Ok(out)
 }
@@ -342,6 +359,11 @@ pub fn run_into_ctx<W: World>(ctx: &mut crate::Ctx, w: &mut W, opts: &Opts, pref
         ctx.machinery_error(format!("[{prefix}] {m}"));
     }
     for (k, what, trace) in &rep.violations {
+        if k.starts_with("machinery:") {
+            // the harness itself failed while evaluating an oracle: never a verdict
+            ctx.machinery_error(format!("[{prefix}] {k}: {what} after {trace}"));
+            continue;
+        }
         ctx.violation(k, what, json!({"world": prefix, "trace": trace}));
     }
     rep
